@@ -10,7 +10,7 @@ PROPS = {
     "C03": dict(level="model_checking", systems=["cuckoo"]),
     "C04": dict(level="model_checking", systems=["qf"]),
     "C05": dict(level="model_checking", systems=["bloom", "cbf", "cms", "exp", "cuckoo", "disk"]),
-    "C06": dict(level="model_checking", systems=["bloom", "cbf", "cms", "exp", "cuckoo"]),
+    "C06": dict(level="model_checking", systems=["bloom", "cbf", "cms", "exp", "cuckoo", "disk"]),
     "C07": dict(level="exploration", systems=["geom"]),
     "C08": dict(level="model_checking", systems=["cbf", "cuckoo"]),
     "C09": dict(level="model_checking", systems=["exp"]),
